@@ -234,6 +234,39 @@ fn catalogue_op(h: &H, idx: u64, inst: &Inst, rng: &mut Rng) {
         }
         nan_propagation(h, idx, &ctx, op, D::F, &inst.def, name, &x, rng);
         nan_propagation(h, idx, &ctx, op, D::I, &inst.def, name, &y, rng);
+        // NaN in an element the operator does not work on (the epoch of 2-D and 3-D data,
+        // say) is no failure: the tuple is inside the domain and must be counted
+        for i in 2..4 {
+            if worked[i] {
+                continue;
+            }
+            // (height and time only: the horizontal position is an input of every operator
+            // here, even where a parameter choice makes its influence vanish numerically)
+            // ... and that its value does not enter the result (the epoch does, for a
+            // time dependent helmert; the latitude does, for permtide)
+            let (y0, _) = apply1(&ctx, op, D::F, x);
+            let mut moved = x;
+            moved[i] += if x[i].abs() > 100.0 { 0.1 * x[i].abs() } else { 0.37 };
+            let (y1, _) = apply1(&ctx, op, D::F, moved);
+            if (0..4).any(|k| k != i && canon(y0[k]) != canon(y1[k])) {
+                continue;
+            }
+            let mut p = x;
+            p[i] = f64::NAN;
+            let (q, c) = apply1(&ctx, op, D::F, p);
+            h.eval(1);
+            let fine = c == 1 && (0..4).all(|k| if k == i { q[k].is_nan() } else { !worked[k] || q[k].is_finite() });
+            if !fine {
+                v(
+                    h,
+                    idx,
+                    &format!("nan-in-untouched-element-makes-the-tuple-fail/{name}/element-{i}"),
+                    J::obj().set("definition", &inst.def).set("input", J::bits(&p)).set("output", J::bits(&q)).set("count", c),
+                );
+                return;
+            }
+            h.class(&format!("nan-in-untouched-element/{name}"));
+        }
         // edge of and far outside the domain, hostile values: no domain promise, but honesty
         for _ in 0..4 {
             let p = hostile_tuple(rng, &x);
